@@ -28,7 +28,7 @@ func init() {
 		Props: []string{"C01", "C02"},
 		Plan: func(prop, tier string) []Batch {
 			if tier == "thorough" {
-				bs := []Batch{{Mode: "seeded", Count: 600000}}
+				bs := []Batch{{Mode: "seeded", Count: 4000000}}
 				if prop == "C02" {
 					bs = append(bs, Batch{Mode: "count-sweep", Count: 4 * 256 * 256, Exhaustive: true})
 				}
